@@ -421,12 +421,13 @@ Definition all_digits (s : str) : bool := match s with [] => false | _ => forall
 Definition sql_int_value (s : str) : option N := if all_digits s then Some (base_value 10 s) else None.
 
 (* plain-data views for the correspondence harness *)
-Definition lit_view (l : lit) : N * str * Z :=
+Definition zview (z : Z) : N * N := match z with Z0 => (0, 0) | Zpos p => (0, Npos p) | Zneg p => (1, Npos p) end.
+Definition lit_view (l : lit) : N * str * (N * N) :=     (* tag, text payload, (sign, magnitude) of the integer payload *)
   match l with
-  | LNull => (0, [], 0%Z) | LInt n => (1, [], Z.of_N n) | LFloat m e => (2, digits_of m, e)
-  | LBool b => (3, [], if b then 1%Z else 0%Z) | LString s => (4, s, 0%Z) | LRaw s => (5, s, 0%Z)
-  | LFString s => (6, s, 0%Z) | LDate s => (7, s, 0%Z) | LTime s => (8, s, 0%Z) | LTimestamp s => (9, s, 0%Z)
+  | LNull => (0, [], (0, 0)) | LInt n => (1, [], (0, n)) | LFloat m e => (2, digits_of m, zview e)
+  | LBool b => (3, [], (0, if b then 1 else 0)) | LString s => (4, s, (0, 0)) | LRaw s => (5, s, (0, 0))
+  | LFString s => (6, s, (0, 0)) | LDate s => (7, s, (0, 0)) | LTime s => (8, s, (0, 0)) | LTimestamp s => (9, s, (0, 0))
   end.
-Definition lex_literal_view tbl rows (s : str) : option (N * str * Z * str) :=
+Definition lex_literal_view tbl rows (s : str) : option (N * str * (N * N) * str) :=
   match lex_literal tbl rows s with Some (l, r) => Some (lit_view l, r) | None => None end.
 Definition piece_view (p : piece) : N * str := match p with PText s => (0, s) | PHole s => (1, s) end.
